@@ -12,6 +12,8 @@ import (
 var Rigs = map[string]sim.Rig{
 	"C07": {Name: "reload", Run: runReload},
 	"C16": {Name: "lifecycle", Run: runLifecycle},
+	"C14": {Name: "pool", Run: runPool("C14")},
+	"C05": {Name: "pool", Run: runPool("C05")},
 	"C08": {Name: "loadfail", Run: runLoadfail, NoBubble: true},
 }
 
